@@ -382,6 +382,126 @@ def part_b(chk: Check, rnd: random.Random, thorough: bool) -> None:
                 chk.violation("c15.reload.differs", f"a fresh gateway built from the reported schema reports another one: {json.dumps(strip_orphans(case['schema']))[:400]} vs {json.dumps(strip_orphans(case['schemaB']))[:400]}", rep)
 
 
+# ---------------------------------------------------------------------------------------------
+# (C) generated schemas, loaded as configuration
+
+
+def gen_schema(rnd: random.Random) -> dict:
+    """1-3 controllers, 0-12 zones each (any class, sensor of a permitted type incl. the controller, 0-4 actuators),
+    DHW parts, appliance control, orphans; a device is used once."""
+    n = [0]
+
+    def dev(t: str) -> str:
+        n[0] += 1
+        return f"{t}:{n[0]:06d}"
+
+    schema: dict = {}
+    ctls = [f"01:{100000 + 1111 * k:06d}" for k in range(rnd.choice((1, 1, 2, 3)))]
+    schema["main_tcs"] = ctls[0]
+    for c in ctls:
+        tcs: dict = {}
+        r = rnd.random()
+        if r < 0.6:
+            tcs["system"] = {"appliance_control": dev(rnd.choice(("10", "13")))}
+        zones = {}
+        ctl_is_sensor = False
+        for idx in sorted(rnd.sample(range(12), rnd.choice((0, 1, 2, 4, 8, 12)))):
+            cls = rnd.choice(("radiator_valve", "zone_valve", "electric_heat", "mixing_valve", "underfloor_heating"))
+            z: dict = {"class": cls}
+            rs = rnd.random()
+            if rs < 0.25 and not ctl_is_sensor:
+                z["sensor"] = c            # (the controller can be the sensor of one zone only)
+                ctl_is_sensor = True
+            elif rs < 0.8:
+                z["sensor"] = dev(rnd.choice(("34", "22", "12", "04", "03")))
+            acts_t = {"radiator_valve": "04", "zone_valve": "13", "electric_heat": "13", "mixing_valve": "30", "underfloor_heating": "02"}[cls]
+            if cls == "mixing_valve":
+                acts_t = "13"
+            if cls != "underfloor_heating":
+                z["actuators"] = [dev(acts_t) for _ in range(rnd.choice((0, 1, 1, 2, 4)))]
+            zones[f"{idx:02X}"] = z
+        tcs["zones"] = zones
+        if rnd.random() < 0.5:
+            hw = {}
+            if rnd.random() < 0.8:
+                hw["sensor"] = dev("07")
+            if rnd.random() < 0.6:
+                hw["hotwater_valve"] = dev("13")
+            if rnd.random() < 0.4:
+                hw["heating_valve"] = dev("13")
+            tcs["stored_hotwater"] = hw
+        if rnd.random() < 0.1:
+            tcs["orphans"] = [dev(rnd.choice(("13", "04", "34", "02"))) for _ in range(rnd.randint(1, 2))]
+        schema[c] = tcs
+    if rnd.random() < 0.4:
+        schema["orphans_heat"] = [dev(rnd.choice(("04", "13", "22"))) for _ in range(rnd.randint(1, 3))]
+    if rnd.random() < 0.3:
+        schema["orphans_hvac"] = [dev(rnd.choice(("32", "37", "29"))) for _ in range(rnd.randint(1, 2))]
+    return schema
+
+
+def part_c(chk: Check, rnd: random.Random, thorough: bool) -> None:
+    from ramses_rf.helpers import shrink
+    from ramses_rf.schemas import SCH_GLOBAL_SCHEMAS
+
+    n = 300 if thorough else 40
+    for _ in range(n):
+        schema = gen_schema(rnd)
+        try:
+            SCH_GLOBAL_SCHEMAS(json.loads(json.dumps(schema)))
+        except Exception:  # noqa: BLE001  (the generator's business, not the library's)
+            chk.count("generated_schema.rejected_by_validator")
+            continue
+
+        async def body(loop, schema=schema):
+            rig = gwrig.Rig(loop, config={"enable_eavesdrop": False}, schema=json.loads(json.dumps(schema)))
+            out = {}
+            try:
+                await rig.start()
+            except Exception as e:  # noqa: BLE001
+                return {"load_error": repr(e)[:300]}
+            try:
+                out["schema"] = rig.gwy.schema
+            except Exception as e:  # noqa: BLE001
+                out["schema_error"] = repr(e)[:300]
+            out["walk"] = graph_walk(rig.gwy, 12)
+            await rig.stop()
+            return out
+
+        try:
+            res, _ = gwrig.run(body)
+        except Exception as e:  # noqa: BLE001
+            chk.violation(f"c15.config.run_died:{type(e).__name__}", f"loading a validator-accepted schema made the run raise {e!r}", {"op": "config", "schema": schema})
+            continue
+        chk.evaluations += 1
+        chk.nontrivial.add(("config", json.dumps(schema, sort_keys=True)))
+        rep = {"op": "config", "schema": schema}
+        if "load_error" in res:
+            if res["load_error"].split("(")[0] in ("SystemSchemaInconsistent", "SchemaInconsistent", "SystemInconsistent"):
+                chk.count("config.refused_as_inconsistent")     # reported, not loaded: allowed
+                continue
+            ctl_orphans = any(isinstance(v, dict) and any(d[:2] != "02" for d in v.get("orphans", [])) for v in schema.values())
+            chk.violation("c15.config.load_raises" + (".ctl_orphans:" if ctl_orphans and res["load_error"].startswith("TypeError") else ":") + res["load_error"].split("(")[0],
+                          f"a validator-accepted schema cannot be loaded: {res['load_error']}", rep)
+            continue
+        if "schema_error" in res:
+            chk.violation("c15.config.schema_raises", f"gwy.schema raised after loading a configuration: {res['schema_error']}", rep)
+            continue
+        for w in res["walk"][:1]:
+            chk.violation("c15.config.walk:" + w.split(" ")[0], f"after loading a configuration: {w}", rep)
+        try:
+            SCH_GLOBAL_SCHEMAS(shrink(json.loads(json.dumps(res["schema"]))))
+        except Exception as e:  # noqa: BLE001
+            chk.violation("c15.config.validator", f"the schema reported after loading a configuration is rejected by the validator: {e!r}"[:300], rep)
+            continue
+        want = strip_orphans(schema)
+        got = strip_orphans(res["schema"])
+        if want != got:
+            diff = [k for k in set(want) | set(got) if want.get(k) != got.get(k)]
+            chk.violation("c15.config.not_reproduced", f"loaded {json.dumps(want.get(diff[0]))[:200]} for {diff[0]}, the gateway reports {json.dumps(got.get(diff[0]))[:200]}", rep)
+        chk.count("config.zones", sum(len(v.get("zones", {})) for v in schema.values() if isinstance(v, dict)))
+
+
 def run(chk: Check) -> None:
     rt.quiet()
     rnd = random.Random(chk.seed)
@@ -390,10 +510,13 @@ def run(chk: Check) -> None:
         "(A) seeded sequences of 3-14 set_parent calls over 17 real devices x {controller device, system, 3 zones, DHW zone, UFH controller, "
         "a non-parent object} x 14 child ids x is_sensor in {None, False, True}, max_zones in {1,2,3,12,16}; (B) seeded histories as C13 "
         "(logs, splices, regex-respecting mutation, specials, foreign traffic), eavesdropping on/off, max_zones in {1,4,8,12,13,16}, at 3-5 "
-        "checkpoints: validator on shrink(schema), reload into a fresh gateway, graph walk; non-trivial = distinct call sequence / (history, checkpoint)"
+        "checkpoints: validator on shrink(schema), reload into a fresh gateway, graph walk; (C) generated validator-accepted schemas (1-3 "
+        "controllers, 0-12 zones of any class with sensors incl. the controller and 0-4 actuators, DHW parts, appliance control, orphans) loaded as "
+        "configuration: loads, reports a valid schema, the same one, graph walk; non-trivial = distinct call sequence / (history, checkpoint) / schema"
     )
     part_a(chk, rnd, thorough)
     part_b(chk, rnd, thorough)
+    part_c(chk, rnd, thorough)
     chk.sample({"calls": [["04:000001", "C:01:145038", "01", None], ["04:000001", "C:01:223036", "01", None]], "expect": ["ok", "SSI"]})
 
 
